@@ -1,6 +1,7 @@
 import Clover.Spec.Render
 import Clover.Proofs.KVLaws
 import Clover.Probe.Keys
+import Clover.Proofs.SpecMaps
 /-! # The representation relation between abstract states and stores
 
 `Rep s σ`: the store `σ` is sorted and, key by key, holds exactly the entries the abstract state `s`
@@ -70,10 +71,12 @@ structure CollWF (coll : Spec.Coll) : Prop where
 
 structure WF (s : Spec.State) : Prop where
   namesClean : ∀ p ∈ s, Clean p.1
-  namesDistinct : (s.map (·.1)).Nodup
+  namesSorted : Spec.KeysSorted s
   colls : ∀ p ∈ s, CollWF p.2
 
-theorem wf_empty : WF [] := ⟨by simp, by simp, by simp⟩
+theorem WF.namesDistinct {s : Spec.State} (h : WF s) : (s.map (·.1)).Nodup := Spec.keysSorted_nodup s h.namesSorted
+
+theorem wf_empty : WF [] := ⟨by simp, by simp [Spec.KeysSorted], by simp⟩
 
 /-- C06's invariant: the store represents some well-formed abstract state -/
 def Inv (σ : KVS) : Prop := ∃ s, WF s ∧ Rep s σ
